@@ -100,7 +100,7 @@ PROPS = {}
 META = {}
 KNOWN = []
 _here = os.path.dirname(os.path.abspath(__file__))
-for _f in sorted(glob.glob(os.path.join(_here, "props", "C*.py"))):
+for _f in sorted(glob.glob(os.path.join(_here, "props", "[CX]*.py"))):
     _spec = importlib.util.spec_from_file_location("prop_" + os.path.basename(_f)[:-3], _f)
     _m = importlib.util.module_from_spec(_spec)
     _spec.loader.exec_module(_m)
